@@ -302,6 +302,19 @@ def sl2(prog):
         te = fn.terms
         counts = [cs for cs in te.calls if cs.callee.name == "unsmoothed_wmc"]
         if not counts:
+            # the count may live in a private helper of the same module (`smoothed_model_count(builder, bdd)`)
+            for cs in te.calls:
+                if not (cs.callee.local or getattr(cs.callee, "res_local", False)):
+                    continue
+                for h in prog.resolve(cs.callee):
+                    if "{closure" not in h.npath and h.npath.rsplit("::", 1)[0] == fn.npath.rsplit("::", 1)[0] and \
+                            any(c.callee.name == "unsmoothed_wmc" for c in h.terms.calls):
+                        fn, te = h, h.terms
+                        counts = [c for c in te.calls if c.callee.name == "unsmoothed_wmc"]
+                        break
+                if counts:
+                    break
+        if not counts:
             raise CheckerError("SL2: %s performs no count" % name)
         for i, cs in enumerate(counts):
             recv = strip(cs.args[0])
